@@ -41,9 +41,14 @@ func Sorter[V any]() SorterClassLike[V] {
 		// This bound class type already exists.
 		class = actual
 	default:
-		// Add a new bound class type.
+		// Add a new bound class type.  The default ranker must not share a
+		// collator (which tracks its traversal depth) between the sorters
+		// that use it, they may be running in different go-routines.
+		var collators = Collator[V]()
 		class = &sorterClass_[V]{
-			defaultRanker_: Collator[V]().Make().RankValues,
+			defaultRanker_: func(first V, second V) Rank {
+				return collators.Make().RankValues(first, second)
+			},
 		}
 		sorterClass[name] = class
 	}
